@@ -54,3 +54,18 @@ Section Serve.
     | None => range_ids (N.to_nat batch) 1 (N.min (1 + batch) (head_height + 1))
     end.
 End Serve.
+
+(* One round of block download between a requester whose chain is `rc` (ids by height, genesis first) and a server:
+   the requester announces the ids at its locator heights, the server replies, and the requester appends the ids
+   whose parent it has as its tip (the linear / initial-download case; forked requesters are explored by the check). *)
+Section Round.
+  Variable batch : N.
+  Variable main : list N.
+  Variable height_of : N -> option N.
+  Definition locator_ids (rc : list N) : list N :=
+    flat_map (fun h => match nth_error rc (N.to_nat h) with Some i => [i] | None => [] end)
+             (recent_heights (N.of_nat (length rc) - 1)).
+  Definition round (rc : list N) : list N := rc ++ serve batch main height_of (locator_ids rc).
+  Fixpoint rounds (n : nat) (rc : list N) : list N :=
+    match n with O => rc | S k => rounds k (round rc) end.
+End Round.
